@@ -18,7 +18,7 @@ static unsigned char *blk; static int blk_cap=0;
 
 static void check_one(const unsigned char *src,int len,int sd,int light){
   /* the packet is placed so that it ends on the last byte of a heap block: any over-read hits ASan's red zone */
-  if(!blk){ blk_cap=70016; blk=(unsigned char*)malloc(blk_cap); }
+  if(!blk||len>blk_cap){ free(blk); blk_cap=len>70016?len:70016; blk=(unsigned char*)malloc(blk_cap); }
   unsigned char *b=blk+blk_cap-len; if(len>0) memmove(b,src,len);
   rfc_pkt m; rfc_parse(b,len,sd,&m);
   unsigned char toc=0xEE; const unsigned char *frames[48]; opus_int16 size[48]; int po=-7; opus_int32 pko=-7; const unsigned char *padp=NULL; opus_int32 padl=-7;
@@ -132,8 +132,18 @@ static int gen_packet(vc_rng *r,unsigned char *b,int cap){
   (void)sd; return pos;
 }
 
+/* very long byte strings (up to ~400 kB): frame sizes and paddings beyond what a 16-bit field holds, where a value that was narrowed before it was
+   checked, or a sum that wrapped, would accept a string the RFC rules reject (or the reverse).  Filled with zeros: only the header matters. */
+static int gen_huge(vc_rng *r,unsigned char *b,int cap){ static const int big[]={1275,1276,1277,2550,2551,32766,32767,32768,32769,65534,65535,65536,65537,65538,66000,66811,98304,131071,131072,131073,132347,196608}; int f=VC_PICK(r,big); if(vc_chance(r,1,3)) f=65536*vc_range(r,1,2)+vc_range(r,0,1280); int code=vc_below(r,4); int toc=(vc_below(r,32)<<3)|(vc_below(r,2)<<2)|code; int n=0; memset(b,0,cap); b[n++]=(unsigned char)toc;
+  if(code==0){ n+=f; }
+  else if(code==1){ n+=2*f+(vc_chance(r,1,4)?1:0); }
+  else if(code==2){ int l1=vc_chance(r,1,2)?vc_range(r,0,251):vc_range(r,252,1275); if(l1<252) b[n++]=(unsigned char)l1; else { b[n++]=(unsigned char)(252+(l1&3)); b[n++]=(unsigned char)((l1-(252+(l1&3)))>>2); } n+=l1+f; }
+  else { int M=vc_chance(r,1,2)?vc_range(r,1,6):vc_range(r,1,48); int vbr=vc_below(r,2), pad=vc_chance(r,2,3); b[n++]=(unsigned char)(M|(vbr<<7)|(pad<<6)); int P=0; if(pad){ P=vc_chance(r,1,2)?f:vc_range(r,0,70000); int q=P; while(q>=254&&n<cap-8){ b[n++]=255; q-=254; } b[n++]=(unsigned char)q; }
+    int fl=vc_chance(r,1,2)?vc_range(r,0,1275):(pad?vc_range(r,0,1275):f); if(vbr){ for(int i=0;i<M-1;i++){ int l=vc_chance(r,1,2)?fl:vc_range(r,0,1275); if(l>1275) l=1275; if(l<252) b[n++]=(unsigned char)l; else { b[n++]=(unsigned char)(252+(l&3)); b[n++]=(unsigned char)((l-(252+(l&3)))>>2); } n+=l; } n+=fl; } else n+=M*fl+(vc_chance(r,1,6)?1:0); n+=P; }
+  if(n>cap) n=cap; return n; }
 static void mode_random(void){
   vc_rng r; vc_case_rng(&r,6); static unsigned char b[70000];
+  { static unsigned char *hb=NULL; const int hcap=420000; if(!hb) hb=(unsigned char*)malloc(hcap); int hl=gen_huge(&r,hb,hcap); check_one(hb,hl,0,0); check_one(hb,hl,1,0); if(vc_chance(&r,1,4)) check_decode_accept(hb,hl); vc_count("huge_strings",1); }
   for(int it=0;it<64;it++){
     int len=gen_packet(&r,b,69000);
     check_one(b,len,0,0); check_one(b,len,1,0);
